@@ -202,13 +202,32 @@ def run(ctx):
                         '%s: the word "%s" is lexed with %s(), which has no word-boundary check: it also matches a '
                         'prefix of a longer identifier; use keyword()' % (f.name, t, node['kind']))
             # (b) handled below with protection context
+    # constants of the crate (character-class strings)
+    cvals = {}
+    for fl_, fv_ in sx.crate_files(ctx.syn, g.crate).items():
+        for mp_, it_ in sx.items_rec(fv_['items']):
+            if it_['k'] == 'const' and sx.lit_str(it_.get('e')) is not None:
+                cvals[it_['name']] = sx.lit_str(it_['e'])
+    # the identifier-continuation alphabet: what the lexer under SimpleIdentifier accepts after the first character
+    id_tail = set()
+    for f_ in g.parsers():
+        if f_.tail and f_.tail[0] == 'ok' and isinstance(f_.tail[2], dict) and f_.tail[2].get('k') == 'struct' and f_.tail[2].get('p') == 'SimpleIdentifier':
+            for st_ in f_.stmts:
+                if st_[0] == 'bind':
+                    for n_ in grammar.iter_ir(st_[3]):
+                        if n_.get('op') == 'ref' and n_['name'] in g.fns and g.fns[n_['name']].lexeme:
+                            for m_ in sx.walk(g.fns[n_['name']].item['body']):
+                                if sx.is_call(m_, 'is_a') and m_['args'] and sx.is_path(m_['args'][0]) and m_['args'][0]['p'] in cvals:
+                                    id_tail |= set(cvals[m_['args'][0]['p']])
     def boundary_guard(q):
         """q is a non-consuming test that the next character is not an identifier character"""
-        if q.get('op') == 'peek' and q['p'].get('op') == 'prim' and q['p']['name'] == 'none_of' \
-                and sx.render(q['p']['args']) in ('AZ09_', 'AZ09_DOLLAR'):
+        def covers(args):
+            t_ = sx.render(args)
+            cls_ = set(cvals[t_]) if t_ in cvals else (set(args[0]['v']) if isinstance(args, list) and len(args) == 1 and args[0].get('k') == 'lit' and args[0].get('t') == 'str' else None)
+            return cls_ is not None and bool(id_tail) and id_tail <= cls_
+        if q.get('op') == 'peek' and q['p'].get('op') == 'prim' and q['p']['name'] == 'none_of' and covers(q['p']['args']):
             return True
-        if q.get('op') == 'not' and q['p'].get('op') == 'prim' and q['p']['name'] in ('one_of', 'is_a') \
-                and sx.render(q['p']['args']) in ('AZ09_', 'AZ09_DOLLAR'):
+        if q.get('op') == 'not' and q['p'].get('op') == 'prim' and q['p']['name'] in ('one_of', 'is_a') and covers(q['p']['args']):
             return True
         if q.get('op') == 'peek' and q['p'].get('op') == 'not':
             return boundary_guard({'op': 'not', 'p': q['p']['p']})
@@ -252,23 +271,6 @@ def run(ctx):
     if kw is not None and kw.ir is not None:
         ok = False
         forms = []
-        # constants of the crate (character-class strings)
-        cvals = {}
-        for fl_, fv_ in sx.crate_files(ctx.syn, g.crate).items():
-            for mp_, it_ in sx.items_rec(fv_['items']):
-                if it_['k'] == 'const' and sx.lit_str(it_.get('e')) is not None:
-                    cvals[it_['name']] = sx.lit_str(it_['e'])
-        # the identifier-continuation alphabet: what the lexer under SimpleIdentifier accepts after the first character
-        id_tail = set()
-        for f_ in g.parsers():
-            if f_.tail and f_.tail[0] == 'ok' and isinstance(f_.tail[2], dict) and f_.tail[2].get('k') == 'struct' and f_.tail[2].get('p') == 'SimpleIdentifier':
-                for st_ in f_.stmts:
-                    if st_[0] == 'bind':
-                        for n_ in grammar.iter_ir(st_[3]):
-                            if n_.get('op') == 'ref' and n_['name'] in g.fns and g.fns[n_['name']].lexeme:
-                                for m_ in sx.walk(g.fns[n_['name']].item['body']):
-                                    if sx.is_call(m_, 'is_a') and m_['args'] and sx.is_path(m_['args'][0]) and m_['args'][0]['p'] in cvals:
-                                        id_tail |= set(cvals[m_['args'][0]['p']])
         missing_chars = set()
 
         def class_of(args):
